@@ -377,7 +377,7 @@ def _run_pool(sh, ctx, gc, KmerSpec):
 					ex = (ThreadPoolExecutor if mode == 'threads' else ProcessPoolExecutor)(max_workers=workers or 4)
 					res = gc.calc_file_signatures(ks, files, concurrency=mode, executor=ex)
 				else:
-					res = gc.calc_file_signatures(ks, files, concurrency=mode, max_workers=workers)
+					res = gc.calc_file_signatures(ks, tuple(files) if r % 5 == 3 else files, concurrency=mode, max_workers=workers)
 			except Exception as e:
 				ctx.violation('raises-on-good-files', f'raised {type(e).__name__}: {e}', w)
 				continue
